@@ -2,6 +2,8 @@ import Got.Drv.Common
 import Got.Model.Sort
 import Got.Model.SortUnique
 import Got.Model.SortAstWorld
+import Got.Model.MiniGoSlice
+import Got.Generated.AstSortxUnique
 /-
 drv_sort: script lines
   slice <mode> <keys> | <nvals>
@@ -20,7 +22,8 @@ drv_sort: script lines
 With the argument `ast` the `slice` and `multi` lines are answered by interpreting the MiniGoSort translations of
 maxDepth and quickSort_func (and, through their calls, doPivot_func, heapSort_func, siftDown_func, medianOfThree_func,
 insertionSort_func) that tools/srcfacts regenerated from /repo for this run (Got/Generated/AstSortxSort.lean) instead
-of the hand-written model (`Got.Model.SortAst.sliceByAst`; `diverge` = out of fuel); `unique` lines give `n/a`.
+of the hand-written model (`Got.Model.SortAst.sliceByAst`; `diverge` = out of fuel), and the `unique` lines by interpreting the
+MiniGoSlice translations of UniqueInt (kind `int`) / UniqueString (all other kinds) of Got/Generated/AstSortxUnique.lean.
 -/
 namespace Got.Drv.Sort
 open Got.Model.Sort Got.Model.SortUnique Got.Drv
@@ -126,6 +129,15 @@ def runUnique (elems : Array Int) : String :=
   | some (r, b) => joinSp ["r", showInts r, "b", showInts b]
   | none => "panic"
 
+/-- `unique` in ast mode: the translated UniqueInt / UniqueString interpreted on the elements (strings are represented by
+    the ints the harness encodes them from; only equality is used).  Fuel: one unit per loop iteration and statement. -/
+def runUniqueAst (kind : String) (elems : Array Int) : String :=
+  let fn := if kind = "int" then Got.Generated.AstSortxUnique.uniqueInt else Got.Generated.AstSortxUnique.uniqueString
+  match fn.run (4 * elems.size + 1000) elems with
+  | some (some (r, b)) => joinSp ["r", showInts r, "b", showInts b]
+  | some none => "panic"
+  | none => "diverge"
+
 /-- `multi <kcap> <vcap> | <mode> <keys> <nv> | …` : the harness reuses one backing array for all steps; the model is
     stateless, every step is an independent `sliceBy` on the step's contents -/
 def runMulti (ast : Bool) (line : String) : String :=
@@ -147,10 +159,9 @@ def step (ast : Bool) (_ : Unit) (line : String) : Unit × String :=
     match parseInts? ks, nv.toNat? with
     | some keys, some nv => ((), runSlice ast mode keys nv)
     | _, _ => ((), "bad-op")
-  | ["unique", _, es] =>
-    if ast then ((), "n/a") else
+  | ["unique", kind, es] =>
     match parseInts? es with
-    | some elems => ((), runUnique elems)
+    | some elems => ((), if ast then runUniqueAst kind elems else runUnique elems)
     | none => ((), "bad-op")
   | [] => ((), "")
   | _ => ((), "bad-op")
